@@ -93,6 +93,10 @@ pub struct Rec {
     pub pkt: Option<PktId>,
     /// stream packet whose packet number differs from its original one (retransmission / probe)
     pub retx: bool,
+    /// packet-number space of the receiver's duplicate filter: taken from the tag as parsed
+    /// (0 = stream, 1 = recovery; retransmissions travel as recovery packets and the parsed tag
+    /// keeps that bit even though the header byte is rewritten before authentication)
+    pub space: u8,
     /// hash of the datagram bytes (0 for secret-control packets: their tag is derived from the
     /// server map's random stateless-reset signer, the only byte source without a seam)
     pub bytes_hash: u64,
@@ -438,6 +442,7 @@ impl LinkState {
             known_id: false,
             pkt: meta.pkt_id(),
             retx: meta.is_retx,
+            space: meta.is_probe as u8,
             bytes_hash: if (KIND_STALE_KEY..=KIND_UPS).contains(&meta.kind) { 0 } else { simkit::hash_bytes(&bytes) },
         };
         if dir == DIR_C2S && meta.kind <= KIND_CONTROL {
